@@ -25,6 +25,7 @@ func (m *Monitors) auditCommit(c *types.Commit, h int64, id types.BlockID) strin
 	}
 	round := int64(-1)
 	var power int64
+	pw, total := m.nt.powersAt(h)
 	for i, v := range c.Precommits {
 		if v == nil {
 			continue
@@ -44,11 +45,11 @@ func (m *Monitors) auditCommit(c *types.Commit, h int64, id types.BlockID) strin
 			return fmt.Sprintf("signature of entry %d does not verify", i)
 		}
 		if v.BlockID.Equals(id) {
-			power += m.power[i]
+			power += pw[i]
 		}
 	}
-	if !(power*3 > m.total*2) {
-		return fmt.Sprintf("only %d of %d voting power precommitted this block", power, m.total)
+	if !(power*3 > total*2) {
+		return fmt.Sprintf("only %d of %d voting power precommitted this block", power, total)
 	}
 	return ""
 }
